@@ -79,8 +79,12 @@ def task_check_distance(pr, repo):
     pr.under_contract(fi)
     pr.under_contract(repo.func(BM + '.__init__'), how='executed (concrete constants, protein_bonds.json read from the tree)')
     pr.under_contract(repo.func('propka.calculations.squared_distance'), how='inlined')
-    for e1 in ELEMENTS:
-        for e2 in ELEMENTS:
+    # every element that the table of special bond lengths of THIS tree names is tested, in both orders
+    keys = []
+    ex.run_paths(lambda ex_, ctx_: keys.extend(bondmaker(ex_, repo).attrs['distances_squared'].keys()))
+    elements = list(ELEMENTS) + sorted({e for k in keys for e in str(k).split('-')} - set(ELEMENTS))
+    for e1 in elements:
+        for e2 in elements:
             def thunk(ex, ctx, e1=e1, e2=e2):
                 bm = bondmaker(ex, repo)
                 a, b = atom(repo, 'a', e1), atom(repo, 'b', e2)
@@ -155,6 +159,61 @@ def task_boxes_pair(pr, repo, e1, e2, prior, orders=(0, 1)):
             return None
         paths = pr.explore(ex, thunk, 'boxes pair %s-%s' % (e1, e2), max_paths=5000)
         pr.notes.append('BX %s-%s order %d prior %s: %d paths' % (e1, e2, order, prior, len(paths)))
+
+
+def task_plumbing(pr, repo):
+    """PL: the default pipeline runs the box search ONCE per conformation on ALL atoms of that conformation - every chain, hetero atoms
+    and supplied hydrogens included - so every pair the pairwise rule bonds is offered to it."""
+    from pyvc.core import Builtin
+    ex = Executor(repo)
+    f1 = repo.func(BM + '.find_bonds_for_molecules_using_boxes')
+    f2 = repo.func('propka.hydrogens.setup_bonding')
+    f3 = repo.func('propka.hydrogens.setup_bonding_and_protonation')
+    for f in (f1, f2, f3):
+        pr.under_contract(f)
+    A = repo.cls('propka.atom.Atom')
+    CCn = 'propka.conformation_container.ConformationContainer'
+
+    def mkmol():
+        confs = {}
+        for cn, chains in (('1A', ['A', 'B']), ('1B', ['A'])):
+            atoms = [record('%s_%d' % (cn, i), A, element=e, chain_id=ch, type=t, name=e + str(i), bonded_atoms=[])
+                     for i, (e, ch, t) in enumerate([('S', 'A', 'atom'), ('S', 'B', 'atom'), ('H', 'A', 'atom'), ('C', 'L', 'hetatm'),
+                                                     ('N', 'B', 'atom')])]
+            confs[cn] = record('conf' + cn, repo.cls(CCn), atoms=atoms, chains=list(chains), groups=[])
+        return record('mol', None, conformation_names=['1A', '1B'], conformations=confs,
+                      options=record('o', None, protonate_all=False, keep_protons=True)), confs
+
+    def run(entry, label):
+        def thunk(ex, ctx):
+            mol, confs = mkmol()
+            calls = []
+            ex.contracts[BM + '.find_bonds_for_atoms_using_boxes'] = lambda ex_, c_, f_, a, k, so: calls.append(list(a[0]))
+            for n in ('find_bonds_for_atoms', 'find_bonds_for_atoms_disjoint', '_find_bonds_for_atoms'):
+                ex.contracts[BM + '.' + n] = lambda ex_, c_, f_, a, k, so, n=n: calls.append(('other', n))
+            for n in ('add_pi_electron_information', 'connect_backbone', 'find_bonds_for_protein'):
+                ex.contracts[BM + '.' + n] = lambda ex_, c_, f_, a, k, so: None
+            ex.contracts['propka.protonate.Protonate.protonate'] = lambda ex_, c_, f_, a, k, so: None
+            ex.contracts['propka.protonate.Protonate.remove_all_hydrogen_atoms'] = lambda ex_, c_, f_, a, k, so: None
+            ex.contracts['propka.hydrogens.set_ligand_atom_names'] = lambda ex_, c_, f_, a, k, so: None
+            ex.contracts[CCn + '.set_ligand_atom_names'] = lambda ex_, c_, f_, a, k, so: None
+            if entry is f1:
+                bm = bondmaker(ex, repo)
+                ex.call_function(f1, [mol], self_obj=bm)
+            elif entry is f2:
+                ex.call_function(f2, [mol])
+            else:
+                ex.call_function(f3, [mol])
+            want = [confs[c].attrs['atoms'] for c in ('1A', '1B')]
+            ok = len(calls) == 2 and all(isinstance(c, list) for c in calls)
+            if ok:
+                for got, w in zip(calls, want):
+                    ok = ok and len(got) == len(w) and all(any(x is y for y in got) for x in w)
+            ctx.oblige('PL[%s]: one box search per conformation, over all of its atoms (all chains, hetero atoms, hydrogens)' % label, ok)
+        pr.explore(ex, thunk, 'bond plumbing ' + label)
+    run(f1, 'find_bonds_for_molecules_using_boxes')
+    run(f2, 'setup_bonding')
+    run(f3, 'setup_bonding_and_protonation')
 
 
 def task_cell_lemma(pr, repo):
@@ -263,7 +322,7 @@ def run(pr, repo):
     from . import C14
     # 'a bridged cysteine is not titrated' also under a titrate-only list that names it
     tasks = [(task_check_distance, ()), (task_cell_lemma, ()), (task_offsets, ()), (task_coverage, ()), (task_group, ()),
-             (C14.task_init_group, ())]
+             (C14.task_init_group, ()), (task_plumbing, ())]
     pairs = [('S', 'S', False), ('H', 'C', True)]
     if pr.tier == 'thorough':
         pairs += [('C', 'C', False), ('S', 'S', True), ('H', 'H', False), ('F', 'F', False), ('C', 'S', False), ('N', 'H', True)]
